@@ -152,7 +152,7 @@ static std::function<double(ptrdiff_t, unsigned)> the_def_vec = [](ptrdiff_t, un
 struct SddRt {
     static std::string rt(const ptree &in) { ptree q = in; q.put("def_vec", static_cast<void*>(&the_def_vec));
         SDD::params prm(q); ptree out; prm.get(out, ""); return show_tree(out); }
-    static std::string dflt() { ptree q; q.put("def_vec", static_cast<void*>(&the_def_vec)); q.put("num_def_vec", 0);
+    static std::string dflt() { ptree q; q.put("def_vec", static_cast<void*>(&the_def_vec));
         SDD::params prm(q); ptree out; prm.get(out, ""); return show_tree(out); }
 };
 static void register_mpi() {
